@@ -25,12 +25,16 @@ Case kinds
        constant, new fields / constants, extra policy); the plugins are loaded one after the other
        with `check_types(cls)` *without* `recheck`, as `PGSchema.check_plugin` does (parents before /
        after / between their children, several children of one parent, repetitions) vs model
-       `loadPlugin` (marks kept between the loads); oracle after every load that passes, as long as
-       nothing was refused before: instances of the loaded class and of everything reachable from it
-       - generated documents also carry explicit valid / foreign / ill-typed values in constant
-       fields - parsed by each ancestor. Plus documents parsed by family classes, validated value
-       (constants included) vs model `decode`.
-  enm  oracle only: the same "marked subclass" pattern with Enum discriminators (outside the grammar).
+       `loadPlugin` (marks kept between the loads, the marks of a refused walk cleared); the sequences
+       go on after a refusal (the refused class again, its subclasses, siblings, the parent). Oracle
+       after every load that passes, whatever was refused before: instances of the loaded class and
+       of everything reachable from it - generated documents also carry explicit valid / foreign /
+       ill-typed values in constant fields - parsed by each ancestor. Constants also over
+       collection-valued discriminators (`List/Set/Optional[List]` of Literals), scalar or list
+       valued, with and without `override=True`. Plus documents parsed by family classes, validated
+       value (constants included) vs model `decode`.
+  enm  oracle only: the same "marked subclass" pattern with Enum discriminators (outside the grammar),
+       plain and collection-valued (`List[E]`, `Set[E]`, `Optional[List[E]]`).
   pln  oracle only: override pairs with the plain builtins `str/int/float/bool` (pydantic's
        coercing validators + the schema Config's anystr limits; outside the Lean grammar) on
        either side: parent `f: b`, child `f: a`; if construction + `check_types` let the child
@@ -56,7 +60,10 @@ LEAN = dict(
         "classTable_unsound_with_qualhashsum", "optional_not_subtype", "literal_subtype_iff", "literal_superset_not_subtype",
         "legacy_crash_breaks_union_subtype", "checkTypes_visits_ancestors", "intermediate_widening_refused", "declaration_not_inherited",
         "new_field_below_forbidding_parent_refused", "nested_literal_refused",
-        "loads_examine_every_ancestor", "load_examines_unmarked", "child_refused_whatever_is_marked", "refused_class_passes_next_load"]],
+        "loads_examine_every_ancestor", "loads_examine_every_ancestor_at", "refused_stays_refused", "refused_at_every_load",
+        "checkTypesF_marksOk", "loadAll_marksOk", "refused_load_restores_marks", "load_examines_unmarked", "child_refused_whatever_is_marked",
+        "legacy_refused_class_passes_next_load", "legacy_nested_descendant_keeps_mark_of_refused_walk",
+        "const_over_container_refused", "legacy_const_over_container_accepted"]],
     drivers=["drv_cod"],
 )
 
@@ -64,6 +71,8 @@ F12_SIG = "C13:phantom-subclass-non-included-pattern:QualHashsumStr<HashsumStr"
 CONST_FORBID_SIG = "C13:const-field-under-forbidding-parent"
 NEW_FIELD_FORBID_SIG = "C13:new-field-under-forbidding-parent"
 NESTED_BLANK_LIT_SIG = "C13:blank-literal-nested-below-plain-str"
+CONST_CONTAINER_SIG = "C13:const-over-container-literal"  # F30 (repaired): a constant over a List/Set of Literals without override
+AFTER_REFUSAL_SIG = "C13:accepted-after-refusal"  # F31 (repaired): a refused class, or a class below it, passes a later check
 
 
 # ----------------------------------------------------------------------------- real code helpers
@@ -215,12 +224,40 @@ def gen_input(rng, fam, name, depth=2):
     return _sprinkle_consts(rng, fam, ["model", name], G.gen_obj(rng, fam, name, depth))
 
 
-def _declared_by(fam, name):
-    """Fields whose incompatible override the class itself declared explicitly: @override(...), and
-    constants put over an inherited constant (`add_const_fields(..., override=True)`)."""
-    cd = G.get_cd(fam, name)
+def eff_const_override(fam, cd):
+    """What `schema_gen.Family` passes as `override=` to `add_const_fields`: the flag of the class,
+    or True when one of its constants replaces an inherited constant (as the `ld` decorator does)."""
+    if not cd["consts"]:
+        return False
     inherited = {k for k, _ in G.eff_consts(fam, cd["parent"])} if cd["parent"] else set()
-    return set(cd.get("overrides", [])) | {k for k, _ in cd["consts"] if k in inherited}
+    return bool(cd.get("const_override")) or any(k in inherited for k, _ in cd["consts"])
+
+
+def _singleton(ty):
+    """pydantic's `type_` of a field with SHAPE_SINGLETON, None for a collection-valued field."""
+    while ty[0] in ("opt", "ann"):
+        ty = ty[1]
+    return None if ty[0] in ("list", "set") else ty
+
+
+def _declared_by(fam, name):
+    """Fields whose incompatible override the class itself declared explicitly: @override(...),
+    constants put over an inherited constant, and - with `add_const_fields(..., override=True)` -
+    constants put over an inherited field that is not a plain Literal field (a constant over a plain
+    Literal field is the "marked subclass" pattern: checked by the decorator, not declared)."""
+    cd = G.get_cd(fam, name)
+    if not cd["parent"]:
+        return set(cd.get("overrides", []))
+    inherited = {k for k, _ in G.eff_consts(fam, cd["parent"])}
+    out = set(cd.get("overrides", [])) | {k for k, _ in cd["consts"] if k in inherited}
+    if eff_const_override(fam, cd):
+        pf = {f[0]: f[1] for f in G.eff_fields(fam, cd["parent"])}
+        for k, _ in cd["consts"]:
+            if k in pf:
+                st = _singleton(pf[k])
+                if st is None or st[0] != "lit":
+                    out.add(k)
+    return out
 
 
 def _class_oracle(F, fam, name, rng, n_inst, oracle, tags, root, witness=None):
@@ -257,9 +294,9 @@ def _class_oracle(F, fam, name, rng, n_inst, oracle, tags, root, witness=None):
     declared, below = set(), name
     for anc in chain:
         cdb = G.get_cd(fam, below)
-        if cdb.get("const_override"):
-            return  # explicitly declared replacement of a field by a constant
         declared |= _declared_by(fam, below)
+        if eff_const_override(fam, cdb):
+            tags.append("const-override-passed")
         if declared:
             tags.append("declared-override")
         if cdb.get("mandatory"):
@@ -314,18 +351,20 @@ def _depth(fam, name):
 def _impl_seq(case):
     """Plugin loads one after the other, as `PGSchema.check_plugin` does them: `check_types(cls)`
     without `recheck`, on one set of classes, in the given order (parents before / after /
-    between their children, several children of one parent, repetitions). After every load that
-    passes (as long as nothing was refused before) the oracle looks at the loaded class and at
-    everything reachable from it. Then `inputs`: documents parsed by family classes, validated
-    value compared with the model (constant fields with explicit values among them)."""
+    between their children, several children of one parent, repetitions, going on after a
+    refusal). After every load that passes - whatever was refused before - the oracle looks at the
+    loaded class and at everything reachable from it; a witness whose chain from the child up to the
+    rejecting ancestor has a class that was refused earlier in the sequence is reported as
+    `accepted-after-refusal`. Then `inputs`: documents parsed by family classes, validated value
+    compared with the model (constant fields with explicit values among them)."""
     from metador_core.schema.core import check_types
 
-    out, oracle, tags, pending = [], [], [], []
+    out, oracle, tags = [], [], []
     fam = case["fam"]
     try:
         F = G.Family(fam)
     except (TypeError, ValueError) as e:
-        return dict(out=["new:%s" % type(e).__name__], oracle=[], tags=["construction-refused"], pending=[])
+        return dict(out=["new:%s" % type(e).__name__], oracle=[], tags=["construction-refused"])
     try:
         out.append("new:ok")
         rng = random.Random(case.get("seed", 0))
@@ -339,8 +378,14 @@ def _impl_seq(case):
             except (TypeError, ValueError) as e:
                 out.append("check:%s" % type(e).__name__)
                 ok = False
-                refused.append(name)
                 tags.append("load-refused")
+                if name in refused:
+                    tags.append("load-refused-again")
+                if any(a in refused for a in _ancestor_chain(fam, name)):
+                    tags.append("load-refused-below-refused")
+                if refused and name not in refused:
+                    tags.append("load-refused-after-refusal")
+                refused.append(name)
             if ok:
                 tags.append("load-ok")
                 anc = _ancestor_chain(fam, name)
@@ -352,18 +397,19 @@ def _impl_seq(case):
                     tags.append("load-after-sibling")
                 if name in checked:
                     tags.append("load-repeated")
-                sink = oracle if not refused else pending
                 if refused:
                     tags.append("load-ok-after-refusal")
                 for n in _reachable(fam, name):
-                    if (n, bool(refused)) in examined:
+                    if n in examined:
                         continue
-                    examined.add((n, bool(refused)))
-                    k = len(sink)
-                    _class_oracle(F, fam, n, rng, case.get("n_inst", 8), sink, tags, name, case.get("witness"))
-                    for d in sink[k:]:
+                    examined.add(n)
+                    k = len(oracle)
+                    _class_oracle(F, fam, n, rng, case.get("n_inst", 8), oracle, tags, name, case.get("witness"))
+                    for d in oracle[k:]:
                         d["loads"] = list(case["loads"])
-                        if refused:
+                        chain = [d["child"]] + _ancestor_chain(fam, d["child"])
+                        below = chain[:chain.index(d["parent"])] if d["parent"] in chain else chain
+                        if any(x in refused for x in below):
                             d["kind"] = "accepted-after-refusal"
                             d["refused_before"] = list(refused)
             checked.append(name)
@@ -381,7 +427,7 @@ def _impl_seq(case):
                 out.append("*")
     finally:
         F.close()
-    return dict(out=out, oracle=oracle[:5], tags=sorted(set(tags)), pending=pending[:3])
+    return dict(out=out, oracle=oracle[:5], tags=sorted(set(tags)))
 
 
 def pln_family(a, b):
@@ -452,9 +498,10 @@ ENUMS = {
 
 def _impl_enm(case):
     """Oracle only (Enum types are outside the Lean grammar): the "marked subclass" pattern with an
-    Enum discriminator. Chain Ga (kind: E or Optional[E], size: int) <- ... <- leaf; a class may pin
-    `kind` with @add_const_fields (an Enum member, a raw value, a foreign value, a member of another
-    Enum). If class construction and `check_types` let the chain through, whatever a class accepts
+    Enum discriminator. Chain Ga (kind: E, Optional[E], or collection-valued: List[E], Set[E],
+    Optional[List[E]]; size: int) <- ... <- leaf; a class may pin `kind` with @add_const_fields (an
+    Enum member, a list of members, a raw value, a foreign value, a member of another Enum; with or
+    without override=True). If class construction and `check_types` let the chain through, whatever a class accepts
     (documents with and without an explicit value in the discriminator field) must serialise to
     something each of its ancestors accepts."""
     import enum
@@ -469,7 +516,9 @@ def _impl_enm(case):
     bases = {"str": (str, enum.Enum), "int": (int, enum.Enum), None: (enum.Enum,)}[mixin]
     E = enum.Enum("Kind", [tuple(m) for m in members], type=bases[0]) if mixin else enum.Enum("Kind", [tuple(m) for m in members])
     Other = enum.Enum("Other", [("zz", "zz"), ("circle", "circle")], type=str)
-    hint = typing.Optional[E] if case.get("optional") else E
+    hint = {None: E, "list": typing.List[E], "set": typing.Set[E], "optlist": typing.Optional[typing.List[E]]}[case.get("shape")]
+    if case.get("optional"):
+        hint = typing.Optional[hint]
     meta = type(MetadataSchema)
     classes, prev = [], MetadataSchema
     try:
@@ -481,7 +530,7 @@ def _impl_enm(case):
             cls = meta(name, (prev,), body)
             if spec is not None:
                 how, v = spec
-                val = {"member": lambda: E[v], "raw": lambda: v, "other": lambda: Other[v]}[how]()
+                val = {"member": lambda: E[v], "memberlist": lambda: [E[x] for x in v], "raw": lambda: v, "other": lambda: Other[v]}[how]()
                 cls = D.add_const_fields({"kind": val}, override=bool(case.get("override")))(cls)
             classes.append(cls)
             prev = cls
@@ -491,6 +540,8 @@ def _impl_enm(case):
     tags.append("check-ok")
     if any(sp is not None for sp in case["chain"]):
         tags.append("enum-pinned")
+        if case.get("shape"):
+            tags.append("enum-collection-pinned")
     for ci in range(1, len(classes)):
         child = classes[ci]
         if case.get("override") and any(sp is not None for sp in case["chain"][1:ci + 1]):
@@ -538,6 +589,21 @@ def gen_enm_cases(ctx):
                             chain2[at + 1] = ["member", members[1][0]]
                             out.append(dict(kind="enm", enum=en, optional=optional, chain=chain2, docs=docs, override=True))
                             out.append(dict(kind="enm", enum=en, optional=optional, chain=chain2, docs=docs))
+        # collection-valued discriminators: a constant is no valid value of the collection; without
+        # override=True the class definition is refused, with it the replacement is declared
+        cdocs = [{"size": 1}] + [{"size": 2, "kind": [v]} for v in vals] + [{"size": 3, "kind": x} for x in (vals, [], vals[0], ["triangle"], None, [vals[0], 17])]
+        cpins = [("member", members[0][0]), ("memberlist", [members[0][0]]), ("memberlist", [members[0][0], members[1][0]]), ("raw", vals[0]), ("raw", [vals[0]]), ("raw", "triangle"), ("other", "circle")]
+        for shape in ("list", "set", "optlist"):
+            for depth in (2, 3):
+                for at in range(1, depth):
+                    for pin in cpins:
+                        for ovr in (False, True):
+                            chain = [None] * depth
+                            chain[at] = list(pin)
+                            c = dict(kind="enm", enum=en, optional=False, shape=shape, chain=chain, docs=cdocs)
+                            if ovr:
+                                c["override"] = True
+                            out.append(c)
     return out
 
 
@@ -639,8 +705,8 @@ def fam_lines(fam):
             parts.append("ovr(%s)" % G.hx(n))
         for n in cd.get("mandatory", []):
             parts.append("mand(%s)" % G.hx(n))
-        if cd.get("const_override"):
-            parts.append("constovr")
+        if eff_const_override(fam, cd):
+            parts.append("constovr")  # the `override=True` that Family passes to add_const_fields
         L.append(" ".join(parts))
     return L
 
@@ -1160,6 +1226,18 @@ def gen_ovr_cases(ctx):
 # ----------------------------------------------------------------------------- load sequences
 DISCRIMINATORS = [["lit", ["a", "b"]], ["lit", ["a", "b", "c"]], ["lit", [1, 2]], ["lit", ["a", 1]], ["lit", ["a"]],
                   ["opt", ["lit", ["a", "b"]]], ["opt", ["lit", ["b", "c", 2]]]]
+# collection-valued discriminators: `field_def.type_` is the Literal, the shape is not SHAPE_SINGLETON
+CONTAINER_DISCRIMINATORS = [["list", ["lit", ["a", "b"]]], ["set", ["lit", ["a", "b"]]], ["opt", ["list", ["lit", ["a", "b", "c"]]]], ["list", ["lit", [1, 2]]],
+                            ["opt", ["set", ["lit", ["a", 1]]]], ["ann", ["list", ["lit", ["a", "b"]]]]]
+
+
+def _relit(ty, new):
+    """`ty` with its Literal replaced by `new` (the structure around it kept)."""
+    if ty[0] == "lit":
+        return new
+    if ty[0] in ("opt", "list", "set", "ann"):
+        return [ty[0], _relit(ty[1], new)]
+    return ty
 
 
 def _lit_members(ty):
@@ -1197,22 +1275,36 @@ def _derive(rng, fam, name, parent, plugin_p=0.8):
     if "k" in pf:
         kt, r = pf["k"][1], rng.random()
         mem = _lit_members(kt)
+        coll = _singleton(kt) is None
         if r < 0.35 and mem:
-            cd["consts"].append(["k", rng.choice(mem) if rng.random() < 0.85 else rng.choice(["zz", 7, "c", True])])
+            v = rng.choice(mem) if rng.random() < 0.85 else rng.choice(["zz", 7, "c", True])
+            if coll and rng.random() < 0.5:
+                v = rng.choice([[v], [v, rng.choice(mem)], []])  # a value of the collection (needs override=True all the same)
+            cd["consts"].append(["k", v])
+            if rng.random() < (0.6 if coll else 0.15):
+                cd["const_override"] = True
         elif r < 0.5 and mem:
-            inner = G.unopt(kt)
             if rng.random() < 0.6:
                 new = ["lit", [v for v in mem if rng.random() < 0.6] or [mem[0]]]
             else:
                 new = ["lit", mem + [rng.choice([v for v in ["a", "b", "c", "d", 1, 2, 3] if v not in mem])]]
-            cd["fields"].append(["k", ["opt", new] if kt[0] == "opt" and rng.random() < 0.7 else new, None])
+            if coll:
+                new = _relit(kt, new) if rng.random() < 0.85 else new
+            else:
+                new = ["opt", new] if kt[0] == "opt" and rng.random() < 0.7 else new
+            cd["fields"].append(["k", new, None])
             if rng.random() < 0.2:
                 cd["overrides"].append("k")
         elif r < 0.56 and G.is_nullable(kt):
             cd["mandatory"].append("k")
     elif "k" in pc and rng.random() < 0.2:
         # another constant over the inherited constant (needs override=True, which Family passes)
-        cd["consts"].append(["k", rng.choice(["a", "b", "c", 1, 2, "zz"])])
+        cd["consts"].append(["k", rng.choice(["a", "b", "c", 1, 2, "zz", ["a"]])])
+    if "g" in pf and not cd["fields"] and not cd["mandatory"] and rng.random() < 0.04:
+        # a constant over an ordinary field: refused unless declared with override=True
+        cd["consts"].append(["g", rng.choice(["a", 1, ["a"]])])
+        if rng.random() < 0.6:
+            cd["const_override"] = True
     if rng.random() < (0.12 if forbid else 0.3):
         cd["fields"].append(_new_field(rng, fam, "n%s" % name.lower()))
     if rng.random() < (0.05 if forbid else 0.15):
@@ -1241,6 +1333,14 @@ def _load_orders(rng, fam, plugins):
         del loads[rng.randrange(len(loads))]
     if rng.random() < 0.2:
         loads.insert(rng.randrange(len(loads) + 1), rng.choice(plugins))  # something gets loaded twice
+    if rng.random() < 0.3:
+        # the process goes on after a load (that may have been refused): the same class again and
+        # the plugins below it, in some order
+        x = rng.choice(loads)
+        below = [p for p in plugins if x in _ancestor_chain(fam, p)]
+        rng.shuffle(below)
+        again = [x] + below if rng.random() < 0.6 else below + [x]
+        loads += again[:4]
     return loads
 
 
@@ -1270,7 +1370,7 @@ def rand_seq_case(rng, n_inputs=3):
     top = _cd("Ga", None, extra=rng.choice([None, None, None, "allow", "ignore", "forbid"]), plugin=rng.random() < 0.8,
               fields=[["f", y, None], ["g", G.rand_field_type(rng, 1, MODELS), None]])
     if rng.random() < 0.7:
-        top["fields"].append(["k", rng.choice(DISCRIMINATORS), None])
+        top["fields"].append(["k", rng.choice(CONTAINER_DISCRIMINATORS if rng.random() < 0.25 else DISCRIMINATORS), None])
     if rng.random() < 0.2:
         top["consts"].append(["@type", "Top"])
     fam.append(top)
@@ -1287,6 +1387,26 @@ def rand_seq_case(rng, n_inputs=3):
         shape = rng.choice([["model", tgt], ["opt", ["model", tgt]], ["list", ["model", tgt]], ["opt", ["union", [["model", "Nd"], ["model", tgt]]]]])
         fam.append(_cd("Us", None, fields=[["h", shape, None]], plugin=True))
         names.append("Us")
+    if rng.random() < 0.2:
+        # a dependency cycle: a class names one of its own descendants in a field (the descendant is
+        # examined inside the walk of the class), or two users nest each other
+        if rng.random() < 0.7:
+            # (not below a class with @make_mandatory: the decorator evaluates the type hints of the
+            # bases while the named class does not exist yet - a NameError in any Python program; no
+            # Union around the forward reference: pydantic's update_forward_refs leaves the outer
+            # `type_` of a field built from ForwardRef *objects* unresolved, which hand-written
+            # annotations do not show)
+            desc = lambda x: [d for d in names if d != "Us" and x in _ancestor_chain(fam, d)]
+            withdesc = [x for x in names if x != "Us" and desc(x) and not any(G.get_cd(fam, d).get("mandatory") for d in desc(x))]
+            if withdesc:
+                x = rng.choice(withdesc)
+                d = rng.choice(desc(x))
+                G.get_cd(fam, x)["fields"].append(["h%s" % x.lower(), rng.choice([["opt", ["model", d]], ["list", ["model", d]], ["opt", ["list", ["model", d]]]]), None])
+        else:
+            tgt = rng.choice(names[1:]) if len(names) > 1 else names[0]
+            fam.append(_cd("Ut", None, fields=[["u", ["opt", ["model", "Uu"]], None], ["t", ["opt", ["model", tgt]], None]], plugin=True))
+            fam.append(_cd("Uu", None, fields=[["u", ["list", ["model", "Ut"]], None]], plugin=rng.random() < 0.7))
+            names += ["Ut", "Uu"]
     plugins = [n for n in names if G.get_cd(fam, n).get("plugin")]
     if not plugins:
         G.get_cd(fam, names[-1])["plugin"] = True
@@ -1310,6 +1430,8 @@ def seq_family(specs, top_fields, extras=None):
                     cd["overrides"].append(fld)
         if "const" in sp:
             cd["consts"].append(["k", sp["const"]])
+            if sp.get("const_override"):
+                cd["const_override"] = True
         fam.append(cd)
     return fam
 
@@ -1326,8 +1448,8 @@ def seq_space():
     """Small scope, complete: Ga (f: y, k: Literal[a, b]) <- Pa <- Ch, and a second child Cb of Pa;
     each of Pa, Ch, Cb does one thing - nothing, re-annotates f (each type of SEQ_F_TYPES,
     undeclared; Optional[int] also declared), @make_mandatory(f), pins k with a constant (member /
-    foreign), narrows or widens k - and the plugins are loaded in every order of three of the four
-    classes and of all four. Every family comes with the documents SEQ_DOCS for Ch."""
+    foreign), narrows or widens k - and the plugins are loaded in 12 orders (parents first / last, single
+    leaves, repetitions, going on after a load that may have been refused). Every family comes with the documents SEQ_DOCS for Ch."""
     K = ["lit", ["a", "b"]]
     acts = [dict()] + [dict(f=(t, False)) for t in SEQ_F_TYPES] + [dict(f=(["opt", ["int"]], True)), dict(f="mand"), dict(const="a"), dict(const="zz"),
                                                                     dict(k=(["lit", ["a"]], False)), dict(k=(["lit", ["a", "b", "c"]], False))]
@@ -1341,7 +1463,8 @@ def seq_space():
                     if "const" in a_pa and ("k" in a_cb):
                         continue
                     fam = seq_family([("Pa", "Ga", a_pa), ("Ch", "Pa", a_ch), ("Cb", "Pa", a_cb)], [["f", y, None], ["k", K, None]])
-                    orders = [["Ga", "Pa", "Ch", "Cb"], ["Ch", "Cb", "Pa", "Ga"], ["Pa", "Ch", "Cb"], ["Pa", "Cb", "Ch"], ["Ch", "Pa", "Cb"], ["Ga", "Ch"], ["Ga", "Cb", "Ch"], ["Cb", "Ch"], ["Ch"], ["Pa", "Pa", "Ch"]]
+                    orders = [["Ga", "Pa", "Ch", "Cb"], ["Ch", "Cb", "Pa", "Ga"], ["Pa", "Ch", "Cb"], ["Pa", "Cb", "Ch"], ["Ch", "Pa", "Cb"], ["Ga", "Ch"], ["Ga", "Cb", "Ch"], ["Cb", "Ch"], ["Ch"], ["Pa", "Pa", "Ch"],
+                              ["Pa", "Ch", "Pa", "Ch"], ["Ch", "Ch", "Cb", "Pa"]]
                     for loads in orders:
                         out.append(dict(kind="seq", fam=fam, loads=loads, seed=17, n_inst=6, inputs=[["Ch", d] for d in SEQ_DOCS[:4]]))
     return out
@@ -1401,19 +1524,74 @@ def focused_seq():
     return out
 
 
-def pending_probes():
-    """Deterministic probes for behaviour of the unchanged code that was reported as a candidate
-    finding and is not (yet) listed in known_findings.json: their outcome goes to the notes."""
-    I = ["int"]
+def after_refusal_cases():
+    """Sequences that go on after a refusal: the refused class again, the classes below it, a sibling,
+    the parent; the defect sits in a leaf, in the middle of a chain, in a plain intermediate class,
+    in a class on a dependency cycle."""
+    I, S, O = ["int"], ["str"], lambda t: ["opt", t]
     out = []
-    # (1) scalar constant over a List / Set of Literals
-    for kt in (["list", ["lit", ["a", "b"]]], ["set", ["lit", ["a", "b"]]], ["opt", ["list", ["lit", ["a", "b"]]]]):
-        fam = seq_family([("Ch", "Ga", dict(const="a"))], [["f", I, None], ["k", kt, None]])
-        out.append(dict(kind="seq", fam=fam, loads=["Ch"], seed=29, n_inst=4, inputs=[], probe="const-over-container-literal"))
-    # (2) a refused class is let through by the next check (the mark survives the refusal)
-    fam = seq_family([("Ch", "Ga", dict(f=(["opt", I], False))), ("Le", "Ch", dict())], [["f", I, None]])
-    for loads in (["Ch", "Ch"], ["Ch", "Le"]):
-        out.append(dict(kind="seq", fam=fam, loads=loads, seed=29, n_inst=4, inputs=[], probe="accepted-after-refusal"))
+
+    def case(fam, loads):
+        out.append(dict(kind="seq", fam=fam, loads=list(loads), seed=29, n_inst=6, inputs=[]))
+
+    for wid in (O(I), ["union", [I, S]]):
+        fam = seq_family([("Ch", "Ga", dict(f=(wid, False))), ("Le", "Ch", dict()), ("Lf", "Le", dict(f=(wid, False))), ("Cb", "Ga", dict())], [["f", I, None]])
+        for loads in (["Ch", "Ch"], ["Ch", "Le"], ["Ch", "Le", "Ch", "Le"], ["Le", "Le"], ["Le", "Ch"], ["Lf", "Le", "Ch", "Ga", "Lf"], ["Ga", "Ch", "Le", "Cb", "Le"],
+                      ["Cb", "Ch", "Cb", "Lf", "Le"], ["Ch", "Ga", "Ch", "Cb"], ["Le", "Ga", "Cb", "Lf"]):
+            case(fam, loads)
+        # the defect in a plain intermediate class (no plugin): only ever reached from below
+        fam = seq_family([("Pa", "Ga", dict(f=(wid, False), plugin=False)), ("Ch", "Pa", dict()), ("Cb", "Pa", dict(f=(wid, False)))], [["f", I, None]])
+        for loads in (["Ch", "Ch"], ["Ch", "Cb"], ["Cb", "Ch", "Cb"], ["Ga", "Ch", "Ga", "Cb", "Ch"]):
+            case(fam, loads)
+        # refused for a declaration error (ValueError), not for the types
+        fam = seq_family([("Ch", "Ga", dict()), ("Le", "Ch", dict(f=(wid, False)))], [["f", I, None]])
+        G.get_cd(fam, "Ch")["overrides"].append("nonexistent")
+        for loads in (["Ch", "Ch", "Le"], ["Le", "Ch", "Le"]):
+            case(fam, loads)
+    # dependency cycles: the refused class names its own descendant in a field (the descendant is
+    # examined, and passes, inside the walk of the class that is then refused); two users nesting each other
+    for shape in (lambda d: O(["model", d]), lambda d: ["list", ["model", d]]):
+        fam = seq_family([("Mi", "Ga", dict(f=(O(I), False))), ("De", "Mi", dict()), ("Df", "De", dict())], [["f", I, None]])
+        G.get_cd(fam, "Mi")["fields"].append(["h", shape("Df"), None])
+        for loads in (["Mi", "De"], ["Mi", "Df", "De"], ["De", "Mi", "Df"], ["Ga", "Mi", "Mi", "Df", "Ga"], ["Df"]):
+            case(fam, loads)
+        fam = seq_family([("Ch", "Ga", dict(f=(O(I), False)))], [["f", I, None]])
+        fam.append(_cd("Ut", None, fields=[["u", O(["model", "Uu"]), None], ["t", shape("Ch"), None]], plugin=True))
+        fam.append(_cd("Uu", None, fields=[["u", shape("Ut"), None]], plugin=True))
+        for loads in (["Ut", "Uu"], ["Uu", "Ut", "Uu"], ["Uu", "Uu", "Ga", "Ut"]):
+            case(fam, loads)
+        fam = seq_family([("Ch", "Ga", dict())], [["f", I, None]])
+        fam.append(_cd("Ut", None, fields=[["u", O(["model", "Uu"]), None], ["t", shape("Ch"), None]], plugin=True))
+        fam.append(_cd("Uu", None, fields=[["u", shape("Ut"), None]], plugin=True))
+        for loads in (["Ut", "Uu"], ["Uu", "Ut", "Ch"]):
+            case(fam, loads)
+    # a nested schema that is refused: the user is refused, again and again; its sibling is not
+    fam = seq_family([("Ch", "Ga", dict(f=(O(I), False)))], [["f", I, None]])
+    fam.append(_cd("Us", None, fields=[["h", O(["model", "Ch"]), None]], plugin=True))
+    fam.append(_cd("Ut", None, fields=[["h", O(["model", "Ga"]), None]], plugin=True))
+    for loads in (["Us", "Us"], ["Us", "Ch", "Us"], ["Ut", "Us", "Ut", "Ch"], ["Ch", "Us", "Ut"]):
+        case(fam, loads)
+    return out
+
+
+def const_container_cases():
+    """Small scope, complete: Ga.k of each collection-valued / plain discriminator shape x constant
+    (member, list of members, empty list, foreign, foreign list) x override=True or not x pinned
+    directly below Ga or one level further down; documents with explicit values for `k`."""
+    I = ["int"]
+    L = ["lit", ["a", "b"]]
+    out = []
+    shapes = [["list", L], ["set", L], ["opt", ["list", L]], ["opt", ["set", L]], ["ann", ["list", L]], ["list", ["opt", L]], ["list", ["list", L]], L, ["opt", L], ["ann", L], ["list", I], I, ["opt", I],
+              ["union", [L, I]]]
+    docs = [{"f": 1}, {"f": 2, "k": ["a"]}, {"f": 3, "k": "a"}, {"f": 4, "k": ["zz"]}, {"f": 5, "k": None}, {"f": 6, "k": []}]
+    for kt in shapes:
+        for v in ("a", ["a"], [], "zz", ["zz"], 1):
+            for ovr in (False, True):
+                for depth in (1, 2):
+                    specs = [("Pa", "Ga", dict())] if depth == 2 else []
+                    specs.append(("Ch", "Pa" if depth == 2 else "Ga", dict(const=v, const_override=ovr)))
+                    fam = seq_family(specs, [["f", I, None], ["k", kt, None]])
+                    out.append(dict(kind="seq", fam=fam, loads=["Ch"], seed=31, n_inst=4, inputs=[["Ch", d] for d in docs]))
     return out
 
 
@@ -1424,9 +1602,15 @@ def gen_seq_cases(ctx):
         n = 160
     else:
         ctx.exhaustive_spaces.append("load orders: Ga(f:y, k:Literal[a,b]) <- Pa <- {Ch, Cb}; each class does one of: nothing / re-annotate f (3 types, undeclared; Optional declared) / "
-                                     "@make_mandatory(f) / pin k by a constant (member, foreign) / narrow or widen k; 10 load orders each: %d cases" % len(spc))
+                                     "@make_mandatory(f) / pin k by a constant (member, foreign) / narrow or widen k; 12 load orders each (with repetitions and loads after a refusal): %d cases" % len(spc))
         n = 3000
-    return focused_seq() + spc + [rand_seq_case(ctx.rng) for _ in range(n)]
+    cc = const_container_cases()
+    if ctx.quick:
+        cc = ctx.rng.sample(cc, 80)
+    else:
+        ctx.exhaustive_spaces.append("constants over discriminator fields: 14 field shapes (List/Set/Optional[List]/Annotated[List] of Literals, nested lists, plain / Optional / Annotated Literal, "
+                                     "non-literal fields, Union) x 6 constants (member, list, empty list, foreign) x override=True or not x directly below the top or one level down: %d families" % len(cc))
+    return focused_seq() + after_refusal_cases() + cc + spc + [rand_seq_case(ctx.rng) for _ in range(n)]
 
 
 PLAIN_OF = {"str": "pstr", "int": "pint", "float": "pfloat", "bool": "pbool"}
@@ -1516,7 +1700,8 @@ def run(ctx):
                 "intermediate classes) in which every class below the top may re-annotate the inherited field (declared or not), add required/Optional/defaulted fields or "
                 "constants (also below a forbidding parent) and change the extra policy, nested use, decorators; class construction + check_types vs model, and instances of every "
                 "reachable class parsed by each of its ancestors; (seq) trees of 2-7 classes (chain of 2-4 levels + siblings; re-annotation, @make_mandatory, Literal discriminator pinned by @add_const_fields, at every level), "
-                "the plugins loaded in some order by check_types without recheck vs model loadPlugin with the marks kept, instances (also with explicit values in constant fields) of everything reachable parsed by every ancestor after each load that passes, "
+                "constants over collection-valued discriminators with and without override=True; the plugins loaded in some order by check_types without recheck, going on after refusals (the refused class again, its subclasses), vs model loadPlugin with the marks kept / cleared on refusal, "
+                "instances (also with explicit values in constant fields) of everything reachable parsed by every ancestor after each load that passes, whatever was refused before, "
                 "documents decoded by family classes vs model; (enm, oracle only) Enum discriminators pinned by constants; (pln, oracle only) override pairs with the plain builtins str/int/float/bool on either side; (anc) installed schemas parsed by every ancestor. Non-trivial = tagged.")
     ctx.assumptions += [
         "date/time types are outside the grammar (excluded by the property)",
@@ -1538,7 +1723,6 @@ def run(ctx):
     seq = [c for c in corpus if c["kind"] == "seq"] + gen_seq_cases(ctx)
     C12.ensure_nf(ctx, seq, report=False)
     ctx.correspond("load-order", MOD, seq, lines, "drv_cod", compare=compare, timeout=120)
-    run_pending_probes(ctx)
     enm = [c for c in corpus if c["kind"] == "enm"] + gen_enm_cases(ctx)
     if not ctx.quick:
         ctx.exhaustive_spaces.append("Enum discriminators: {str, int, plain Enum} x {E, Optional[E]} x chains of 2-4 classes x pin (member, raw value, foreign value, member of another Enum) at every level, second pin below: %d chains" % len(enm))
@@ -1580,43 +1764,6 @@ def run(ctx):
         ctx.note_case(c, r["ok"]["tags"], c.get("n", 1))
     ctx.notes.append("installed schemas: %d (instance, ancestor) parses" % n_anc)
     prioritise_hits(ctx)
-
-
-PENDING = {
-    "C13:const-over-container-literal": "@add_const_fields puts a scalar constant over an inherited List[Literal[...]] / Set[Literal[...]] field (decorators.py tests `field_def.type_`, "
-                                        "the item type): class construction and check_types pass, the child dumps the scalar, the parent rejects it ('value is not a valid list')",
-    "C13:accepted-after-refusal": "check_types sets `__types_checked__` before it examines a class and leaves it set when the examination raises (core.py:369-371): the class that was "
-                                  "refused, and every class below it, passes the next check_types unexamined",
-}
-
-
-def run_pending_probes(ctx):
-    """Candidate findings on the unchanged code that are not (yet) in known_findings.json: always
-    probed with fixed inputs, outcome reported as a note, never as a violation. A hit with one of
-    these signatures that comes out of the generators is moved to the notes as well."""
-    probes = pending_probes()
-    seen = {}
-    for c, r in zip(probes, pool.run(MOD, "impl", probes, timeout=120)):
-        if "ok" not in r:
-            raise lean.InfraError("pending probe failed: %s" % (core.canon(r)[:300],))
-        for d in r["ok"]["oracle"] + r["ok"].get("pending", []):
-            seen.setdefault(signature(c, d), (c, d))
-        ctx.note_case(c, r["ok"]["tags"] + ["pending-probe"], len(c["loads"]))
-    keep = []
-    for h in ctx.oracle_hits:
-        sig = signature(h["case"], h["detail"])
-        if sig in PENDING:
-            seen.setdefault(sig, (h["case"], h["detail"]))
-        else:
-            keep.append(h)
-    ctx.oracle_hits[:] = keep
-    for sig in sorted(PENDING):
-        if sig in seen:
-            c, d = seen[sig]
-            ctx.notes.append("candidate finding, reported, not counted (%s): %s; e.g. loads=%s child=%s parent=%s input=%s serialised=%s" % (
-                sig, PENDING[sig], ",".join(c.get("loads", [])), d.get("child"), d.get("parent"), json.dumps(d.get("input"))[:80], json.dumps(d.get("serialised"))[:80]))
-        else:
-            ctx.notes.append("candidate finding no longer observed (%s)" % sig)
 
 
 def prioritise_hits(ctx, budget=30):
@@ -1727,7 +1874,7 @@ def signature(case, detail):
     if kind == "enum-child-instance-rejected-by-parent":
         return "%s:enum-constant-rejected-by-parent:%s:%s" % (ID, detail.get("enum"), ",".join(detail.get("fields") or []))
     if kind == "accepted-after-refusal":
-        return "C13:accepted-after-refusal"
+        return AFTER_REFUSAL_SIG
     if kind == "child-instance-rejected-by-parent":
         fam = detail.get("fam") or case.get("fam")
         ch, pa = detail.get("child"), detail.get("parent")
@@ -1748,7 +1895,7 @@ def signature(case, detail):
                 while inner[0] in ("opt", "ann"):
                     inner = inner[1]
                 if inner[0] in ("list", "set"):
-                    return "C13:const-over-container-literal"
+                    return CONST_CONTAINER_SIG
                 return "%s:constant-field-rejected-by-parent:%s" % (ID, G.ty_str(b))
             if len(flds) == 1 and flds[0] in ft_c and flds[0] in ft_p:
                 a, b = ft_c[flds[0]], ft_p[flds[0]]
@@ -1820,7 +1967,7 @@ def shrink_ovr(req):
             r = impl(c)
         except Exception:
             return None
-        ds = [d for d in r["oracle"] + r.get("pending", []) if d.get("kind") == detail["kind"]]
+        ds = [d for d in r["oracle"] if d.get("kind") == detail["kind"]]
         return ds[0] if ds else None
 
     cur = dict(case)
